@@ -3660,3 +3660,89 @@ func (c *Ctx) onlyIncrementsThrough(g *types.Func, i int) bool {
 	})
 	return ok
 }
+
+// ---------------------------------------------------------------------------------------------
+// CANDIDATES (C20): the uniform generator draws the branch to graft on from a list of candidates
+// (`edges`, the slice indexed by the draw). Every branch the loop creates (ConnectNodes result,
+// both new branches returned by GraftTipOnEdge) must be appended to that list; a branch left out
+// is never grafted on, and the topologies that need it have probability zero.
+func (c *Ctx) uniformCandidates(rule string) {
+	fi := c.Func("tree", "", "RandomUniformBinaryTree")
+	if fi == nil {
+		return
+	}
+	clause := "drawing a 'uniform' tree gives every labelled topology the same probability"
+	info := fi.Pkg.TypesInfo
+	// the candidate list: the slice indexed by (a value drawn with) rand.Intn(len(list))
+	var list types.Object
+	for _, call := range callsIn(fi.Decl.Body, true) {
+		g := calleeOf(info, call)
+		if g == nil || g.Pkg() == nil || g.Pkg().Path() != "math/rand" || g.Name() != "Intn" || len(call.Args) != 1 {
+			continue
+		}
+		if lc, ok := unparen(call.Args[0]).(*ast.CallExpr); ok && len(lc.Args) == 1 {
+			if id, ok := unparen(lc.Fun).(*ast.Ident); ok && id.Name == "len" {
+				list = identObj(info, lc.Args[0])
+			}
+		}
+	}
+	if list == nil {
+		c.Undecided(rule, "tree.RandomUniformBinaryTree/candidates", fi.Decl.Pos(), "the list of candidate branches (drawn with Intn(len(list))) was not found")
+		return
+	}
+	appended := map[types.Object]bool{}
+	ast.Inspect(fi.Decl.Body, func(m ast.Node) bool {
+		as, ok := m.(*ast.AssignStmt)
+		if !ok || len(as.Lhs) != 1 || len(as.Rhs) != 1 || identObj(info, as.Lhs[0]) != list {
+			return true
+		}
+		call, ok := unparen(as.Rhs[0]).(*ast.CallExpr)
+		if !ok || len(call.Args) < 2 {
+			return true
+		}
+		if id, ok := unparen(call.Fun).(*ast.Ident); !ok || id.Name != "append" || identObj(info, call.Args[0]) != list {
+			return true
+		}
+		for _, a := range call.Args[1:] {
+			if o := identObj(info, a); o != nil {
+				appended[o] = true
+			}
+		}
+		return true
+	})
+	n := 0
+	ast.Inspect(fi.Decl.Body, func(m ast.Node) bool {
+		as, ok := m.(*ast.AssignStmt)
+		if !ok || len(as.Rhs) != 1 {
+			return true
+		}
+		call, ok := unparen(as.Rhs[0]).(*ast.CallExpr)
+		if !ok {
+			return true
+		}
+		g := calleeOf(info, call)
+		var created []types.Object
+		switch {
+		case isRepoFunc(g, "tree", "Tree", "ConnectNodes") && len(as.Lhs) == 1:
+			created = append(created, identObj(info, as.Lhs[0]))
+		case isRepoFunc(g, "tree", "Tree", "GraftTipOnEdge") && len(as.Lhs) == 4:
+			created = append(created, identObj(info, as.Lhs[0]), identObj(info, as.Lhs[1]))
+		}
+		for _, o := range created {
+			if o == nil {
+				continue
+			}
+			n++
+			key := fmt.Sprintf("tree.RandomUniformBinaryTree/%s→%s", o.Name(), list.Name())
+			if appended[o] {
+				c.OK(rule, key, as.Pos(), "the new branch becomes a candidate for later insertions")
+			} else {
+				c.Violation(rule, key, as.Pos(), fmt.Sprintf("the branch `%s` created here is never appended to `%s`, the list the insertion point is drawn from: no later tip can be inserted on it, so the labelled topologies that need it are never generated", o.Name(), list.Name())).Clause = clause
+			}
+		}
+		return true
+	})
+	if n == 0 {
+		c.Undecided(rule, "tree.RandomUniformBinaryTree/candidates", fi.Decl.Pos(), "no branch creation found")
+	}
+}
